@@ -3,6 +3,8 @@
 #include <cgreen/reporter.h>
 #include <cgreen/suite.h>
 #include <cgreen/internal/runner_platform.h>
+#include <errno.h>
+#include <limits.h>
 #include <stdarg.h>
 #include <stdio.h>
 #include <stdlib.h>
@@ -204,6 +206,7 @@ static int per_test_timeout_defined(void)
 static int per_test_timeout_value(void)
 {
     char *timeout_string;
+    long timeout_long;
     int timeout_value;
 
     if (!per_test_timeout_defined())
@@ -212,7 +215,14 @@ static int per_test_timeout_value(void)
     }
 
     timeout_string = getenv(CGREEN_PER_TEST_TIMEOUT_ENVIRONMENT_VARIABLE);
-    timeout_value = atoi(timeout_string);
+    /* Only a plain decimal number that fits an int is a value, "5abc", " 7" or "" are not */
+    if (timeout_string[0] == '\0' || strspn(timeout_string, "0123456789") != strlen(timeout_string))
+    {
+        return -1;
+    }
+    errno = 0;
+    timeout_long = strtol(timeout_string, NULL, 10);
+    timeout_value = (errno != 0 || timeout_long > INT_MAX) ? -1 : (int)timeout_long;
 
     return timeout_value;
 }
@@ -223,7 +233,8 @@ static void validate_per_test_timeout_value(void)
 
     if (timeout <= 0)
     {
-        die("invalid value for %s environment variable: %d\n", CGREEN_PER_TEST_TIMEOUT_ENVIRONMENT_VARIABLE, timeout);
+        die("invalid value for %s environment variable: %s\n", CGREEN_PER_TEST_TIMEOUT_ENVIRONMENT_VARIABLE,
+            getenv(CGREEN_PER_TEST_TIMEOUT_ENVIRONMENT_VARIABLE));
     }
 }
 
